@@ -19,6 +19,12 @@ package server
 //                     "cursors.fetch.scanned" (after the log scan, before the
 //                     cache fill)
 //   FetchEnd(c)       releases that goroutine and takes its result
+//   SetFail(k, v)     apiServer.SetCursor while the partition cannot commit (its
+//                     minISR raised above the ISR size for the call): the record
+//                     is appended, the call fails at its 100 ms deadline
+//   CleanBegin/End    log.Clean() in a goroutine parked at the commit-log gate
+//                     "clean.before_swap" (compaction done, segment list not yet
+//                     swapped), then released
 //   Clean             log.Clean() of the cursors partition
 //   Pause             partition.requestPause() - what the auto-pause timer of the
 //                     cursors partition does when it fires
@@ -44,6 +50,7 @@ import (
 	client "github.com/liftbridge-io/liftbridge-api/v2/go"
 	"google.golang.org/grpc/status"
 
+	"github.com/liftbridge-io/liftbridge/server/commitlog"
 	proto "github.com/liftbridge-io/liftbridge/server/protocol"
 )
 
@@ -93,19 +100,23 @@ type vC11Pending struct {
 }
 
 var (
-	vC11Mu  sync.Mutex
-	vC11Arm *vC11Pending // the FetchCursor call to park at the gate
+	vC11Mu       sync.Mutex
+	vC11Arm      *vC11Pending // the FetchCursor call to park at the gate
+	vC11ArmClean *vC11Pending // the Clean() call to park before its segment swap
 )
 
 type vC11Run struct {
-	t       *testing.T
-	srv     *Server
-	cfg     *Config
-	id      int
-	cap     int
-	cacheOn bool
-	pend    map[string]*vC11Pending
-	lastSt  vC11State
+	t        *testing.T
+	srv      *Server
+	cfg      *Config
+	id       int
+	cap      int
+	cacheOn  bool
+	failWait time.Duration
+	pend     map[string]*vC11Pending
+	clean    *vC11Pending
+	lastSet  *vC11Ent // key/value of the SetCursor of the current step
+	lastSt   vC11State
 }
 
 func (r *vC11Run) stream() string { return fmt.Sprintf("b%05d", r.id) }
@@ -129,22 +140,29 @@ func (r *vC11Run) state() vC11State {
 	} else {
 		st.Next = p.log.NewestOffset() + 1
 		st.HW = p.log.HighWatermark()
-		if p.log.OldestOffset() != -1 {
-			rdr, err := p.log.NewReader(p.log.OldestOffset(), true)
-			if err != nil {
-				r.fail(fmt.Sprintf("scan reader: %v", err))
+		if r.clean != nil {
+			// between the two steps of a clean the rewritten segments cannot be
+			// read through a forward reader (it retries until the swap): the log is
+			// the one projected before plus what this step appended
+			st.Clog = append(st.Clog, r.lastSt.Clog...)
+			if r.lastSet != nil && st.Next > r.lastSt.Next {
+				st.Clog = append(st.Clog, vC11Ent{Off: st.Next - 1, Key: r.lastSet.Key, Val: r.lastSet.Val})
 			}
+		} else if p.log.OldestOffset() != -1 {
+			rdr, err := p.log.NewReader(p.log.OldestOffset(), true)
 			ctx, cancel := context.WithCancel(context.Background())
 			cancel()
 			buf := make([]byte, 28)
-			for {
+			// (a log that cannot be read back is projected as far as it can be
+			// read: the projection is compared at conformance level only)
+			for err == nil {
 				m, off, _, _, err := rdr.ReadMessage(ctx, buf)
 				if err != nil {
 					break
 				}
 				cur := new(proto.Cursor)
 				if err := cur.Unmarshal(m.Value()); err != nil {
-					r.fail(fmt.Sprintf("cursor entry %d does not decode: %v", off, err))
+					break
 				}
 				st.Clog = append(st.Clog, vC11Ent{Off: off, Key: r.shortKey(string(m.Key())), Val: cur.Offset})
 			}
@@ -159,6 +177,18 @@ func (r *vC11Run) state() vC11State {
 			}
 		}
 		sort.Slice(st.Segs, func(i, j int) bool { return st.Segs[i] < st.Segs[j] })
+		if r.clean != nil && len(r.lastSt.Segs) > 0 {
+			// ... and the segment list is the one before plus the segments rolled
+			// since (the compaction has already deleted the files of segments it
+			// emptied; they leave the list at the swap)
+			segs := append([]int64{}, r.lastSt.Segs...)
+			for _, b := range st.Segs {
+				if b > segs[len(segs)-1] {
+					segs = append(segs, b)
+				}
+			}
+			st.Segs = segs
+		}
 	}
 	c := r.srv.cursors
 	c.mu.RLock()
@@ -175,6 +205,11 @@ func (r *vC11Run) state() vC11State {
 // never leave a FetchCursor goroutine parked: Server.Stop() waits for nothing
 // here, but the goroutine would leak into the next behaviour
 func (r *vC11Run) releaseAll() {
+	if r.clean != nil {
+		close(r.clean.release)
+		<-r.clean.done
+		r.clean = nil
+	}
 	for c, p := range r.pend {
 		close(p.release)
 		<-p.done
@@ -232,6 +267,10 @@ func (r *vC11Run) step(step map[string]interface{}) vC11Event {
 	a := vStr(step, "a")
 	args := map[string]interface{}{"k": vStrDef(step, "k", ""), "c": vStrDef(step, "c", ""), "v": vIntDef(step, "v", 0)}
 	obs := vC11Obs{A: a, Ret: -1}
+	r.lastSet = nil
+	if a == "Set" || a == "SetFail" {
+		r.lastSet = &vC11Ent{Key: vStr(step, "k"), Val: vInt(step, "v")}
+	}
 	func() {
 		defer func() {
 			if p := recover(); p != nil {
@@ -297,13 +336,82 @@ func (r *vC11Run) step(step map[string]interface{}) vC11Event {
 			}
 			delete(r.pend, c)
 			obs.Ret, obs.Err = p.ret, vC11Err(p.err)
+		case "SetFail":
+			// SetCursor while the cursors partition cannot commit (ISR below the
+			// minimum ISR size): the record is appended, the call fails at its deadline
+			p := r.part()
+			if p.IsPaused() {
+				obs.A, a = "Skip", "Skip"
+				return
+			}
+			p.mu.Lock()
+			old := p.minISR
+			p.minISR = len(p.isr) + 1
+			p.mu.Unlock()
+			ctx, cancel := context.WithTimeout(context.Background(), r.failWait)
+			_, err := r.srv.api.SetCursor(ctx, &client.SetCursorRequest{Stream: r.stream(), Partition: 0,
+				CursorId: vStr(step, "k"), Offset: vInt(step, "v")})
+			cancel()
+			p.mu.Lock()
+			p.minISR = old
+			p.mu.Unlock()
+			obs.Err = vC11Err(err)
+			obs.Ret = vInt(step, "v")
+		case "CleanBegin":
+			p := r.part()
+			if p.IsPaused() || r.clean != nil {
+				obs.A, a = "Skip", "Skip"
+				return
+			}
+			c := &vC11Pending{reached: make(chan struct{}), release: make(chan struct{}), done: make(chan struct{})}
+			vC11Mu.Lock()
+			vC11ArmClean = c
+			vC11Mu.Unlock()
+			go func() {
+				defer close(c.done)
+				c.err = p.log.Clean()
+			}()
+			select {
+			case <-c.reached:
+				r.clean = c
+			case <-c.done:
+				vC11Mu.Lock()
+				vC11ArmClean = nil
+				vC11Mu.Unlock()
+				obs.Err = "done"
+				if c.err != nil {
+					obs.Err = c.err.Error()
+				}
+			case <-time.After(vC11Deadline):
+				r.fail("Clean neither returned nor reached the gate")
+			}
+		case "CleanEnd":
+			if r.clean == nil {
+				obs.A, a = "Skip", "Skip"
+				return
+			}
+			c := r.clean
+			close(c.release)
+			select {
+			case <-c.done:
+			case <-time.After(vC11Deadline):
+				r.fail("released Clean did not return")
+			}
+			r.clean = nil
+			if c.err != nil {
+				obs.Err = c.err.Error()
+			}
 		case "Clean":
-			if p := r.part(); p.IsPaused() {
+			if p := r.part(); p.IsPaused() || r.clean != nil {
 				obs.A, a = "Skip", "Skip"
 			} else if err := p.log.Clean(); err != nil {
 				obs.Err = err.Error()
 			}
 		case "Pause":
+			if r.clean != nil {
+				obs.A, a = "Skip", "Skip"
+				return
+			}
 			// what the auto-pause timer of the partition does when it fires
 			err := r.part().requestPause()
 			if err != nil {
@@ -317,7 +425,7 @@ func (r *vC11Run) step(step map[string]interface{}) vC11Event {
 				time.Sleep(time.Millisecond)
 			}
 		case "Restart":
-			if len(r.pend) > 0 {
+			if len(r.pend) > 0 || r.clean != nil {
 				obs.A, a = "Skip", "Skip"
 				return
 			}
@@ -351,6 +459,20 @@ func TestVerifCursors(t *testing.T) {
 		}
 	}
 	defer func() { VerifGateHook = nil }()
+	commitlog.VerifGateHook = func(name string) {
+		if name != "clean.before_swap" {
+			return
+		}
+		vC11Mu.Lock()
+		c := vC11ArmClean
+		vC11ArmClean = nil
+		vC11Mu.Unlock()
+		if c != nil {
+			close(c.reached)
+			<-c.release
+		}
+	}
+	defer func() { commitlog.VerifGateHook = nil }()
 
 	defer os.RemoveAll(storagePath)
 	cfg := vOneNodeConfig(t, "a")
@@ -358,7 +480,8 @@ func TestVerifCursors(t *testing.T) {
 	cfg.CursorsStream.AutoPauseTime = 0
 	cfg.Streams.CleanerInterval = 24 * time.Hour
 	srv := vOneNodeServer(t, cfg)
-	run := &vC11Run{t: t, srv: srv, cfg: cfg, id: 0, cap: 2, cacheOn: true, pend: map[string]*vC11Pending{}}
+	run := &vC11Run{t: t, srv: srv, cfg: cfg, id: 0, cap: 2, cacheOn: true, pend: map[string]*vC11Pending{},
+		failWait: 100 * time.Millisecond}
 	defer func() { run.srv.Stop() }()
 	run.waitLeader()
 
